@@ -4,29 +4,14 @@ import json, os, sys
 VERIF = os.path.dirname(os.path.dirname(os.path.abspath(__file__)))
 ALL = ["C%02d" % i for i in range(1, 21)]
 
-CHECKS = {
- "C20": dict(
-   category="proof", design_ref="DESIGN.md section 5, C20",
-   text="Coq theorems (no-leak, max_days bound, nearest boundary under overshoot, contiguous slice with only the final row "
-        "blanked, gap warnings iff gap, dedicated error iff empty selection) over a Gallina model of get_baseline_data/"
-        "get_reporting_data for every sorted index, cut instant and option combination; the model is tied to the code by a "
-        "differential correspondence evaluated with vm_compute, and a literal oracle of the statement runs on every "
-        "implementation observation.",
-   note="Trusted: Coq kernel + vm_compute; pandas label slicing / get_indexer(nearest) re-specified in Model/Windows.v and "
-        "validated only on the sampled calls; harness/c20.py. No axioms (Print Assumptions: closed).",
-   technique="Coq proof over list model + vm_compute correspondence"),
- "C04": dict(
-   category="proof", design_ref="DESIGN.md section 5, C04",
-   text="Coq theorems over a life-cycle state machine of the three model families (guard order of fit/predict as coded, "
-        "to_json/from_json, arbitrary poor-fit oracle): fit raises DataSufficiencyError iff disqualified data and no override, "
-        "predict returns a frame only behind every guard (fitted, own data type, same time zone, no disqualification or override), "
-        "the gate and the inherited / poor-fit disqualifications survive storage and any history of operations. One corner is "
-        "refuted and recorded (refit of a reloaded hourly object). The machine is tied to the code by a correspondence over "
-        "operation histories with real fits; a literal oracle of the statement decides violations.",
-   note="Trusted: Coq kernel + vm_compute; Model/Gate.v (hand-written guard order) validated on sampled histories only; the numeric "
-        "fit is an oracle (that it never raises on qualified data is sampled); harness/c04.py, harness/fitlib.py. No axioms.",
-   technique="Coq proof over life-cycle state machine + history correspondence"),
-}
+import glob
+CHECKS = {}
+for _p in sorted(glob.glob(os.path.join(VERIF, "manifest.d", "C*.json"))):
+    CHECKS[os.path.basename(_p)[:-5]] = json.load(open(_p))   # keys: category, design_ref, text, note, technique
+REASONS = {}
+_r = os.path.join(VERIF, "manifest.d", "not_applicable.json")
+if os.path.exists(_r):
+    REASONS = json.load(open(_r))
 NOT_YET = "check not built yet in this revision (planned, see DESIGN.md section 10)"
 
 def main():
@@ -65,7 +50,7 @@ def main():
                               "concrete violations",
         }],
         "checks": checks,
-        "not_applicable": [{"property_id": p, "reason": NOT_YET} for p in ALL if p not in CHECKS],
+        "not_applicable": [{"property_id": p, "reason": REASONS.get(p, NOT_YET)} for p in ALL if p not in CHECKS],
         "notes": "All checks: cwd=/verif, honour VERIF_SEED and VERIF_TIER, rewrite evidence/<id>.json on every run, rebuild the "
                  "property's proofs from source on every run. known_findings.json lists repaired (fixed:) and recorded (known) defects.",
     }
